@@ -53,7 +53,8 @@ REQUIRED = ('round_trips', 'replays_compared', 'partial_histories',
             'commentary_histories', 'commentary_sequences_compared',
             'commentary_with_whitespace_runs',
             'histories_with_facedown_unknown_shows',
-            'ten_plus_player_histories', 'long_decimal_histories')
+            'ten_plus_player_histories', 'long_decimal_histories',
+            'exponent_decimal_histories')
 
 PHH_GAMES = tuple(g for g in gen.ALL_GAMES if g != 'NoLimitRoyalHoldem')
 HOLDEM_FAMILY = ('FixedLimitTexasHoldem', 'NoLimitTexasHoldem',
@@ -226,6 +227,8 @@ def check_case(res, rng, cfg, pol):
         res.counters['ten_plus_player_histories'] += 1
     if cfg.get('long_decimals'):
         res.counters['long_decimal_histories'] += 1
+    if cfg.get('exponent_decimals'):
+        res.counters['exponent_decimal_histories'] += 1
     if any(' # ' in a for a in hh.actions):
         res.counters['commentary_histories'] += 1
     if any(a.split()[1:2] == ['sm'] and '??' in a.split('#')[0]
@@ -384,7 +387,23 @@ def gen_cfg(rng):
     if cfg['mode'] == 'CASH_GAME' and \
             'RUNOUT_COUNT_SELECTION' not in cfg['autos']:
         cfg['autos'].append('RUNOUT_COUNT_SELECTION')
-    if chip == 'Decimal' and rng.random() < 0.12:
+    if chip == 'Decimal' and rng.random() < 0.1:
+        # round amounts in exponent form (Decimal('2E+1'), what normalize()
+        # and quantize() produce): still Decimals after a save and load
+        def ex(v):
+            if isinstance(v, bool) or v is None:
+                return v
+            if isinstance(v, (int, Decimal)):
+                return (Decimal(v) * Decimal('1E+1')).normalize()
+            if isinstance(v, (list, tuple)):
+                return type(v)(ex(x) for x in v)
+            if isinstance(v, dict):
+                return {k: ex(x) for k, x in v.items()}
+            return v
+        cfg['gargs'] = [cfg['gargs'][0]] + [ex(x) for x in cfg['gargs'][1:]]
+        cfg['stacks'] = ex(cfg['stacks'])
+        cfg['exponent_decimals'] = True
+    elif chip == 'Decimal' and rng.random() < 0.12:
         # many significant digits (an 18-decimal denomination): the text
         # must carry every digit, a detour through a double does not
         f = Decimal('1.000000000000000003')
